@@ -77,9 +77,10 @@ func fieldAccesses(w *World, t *types.Named) []fieldAccess {
 	return out
 }
 
-// guardedFields infers which mutex field guards which data field of t: a field is guarded by the
-// mutex held (in write mode) at its writes outside constructors. Returns field -> mutex field name.
-func guardedFields(w *World, t *types.Named, accs []fieldAccess) map[*types.Var]string {
+// guardedFields infers which mutexes guard which data field of t: the mutexes held in write mode at
+// ALL writes of the field outside constructors. Writers must hold all of them (write mode), readers
+// at least one of them (any mode) - the usual "writers hold every lock, readers any lock" discipline.
+func guardedFields(w *World, t *types.Named, accs []fieldAccess) map[*types.Var][]string {
 	st, ok := t.Underlying().(*types.Struct)
 	if !ok {
 		return nil
@@ -90,71 +91,85 @@ func guardedFields(w *World, t *types.Named, accs []fieldAccess) map[*types.Var]
 			mutexes = append(mutexes, st.Field(i).Name())
 		}
 	}
-	out := map[*types.Var]string{}
-	count := map[*types.Var]map[string]int{}
+	sets := map[*types.Var]map[string]int{}
+	writes := map[*types.Var]int{}
 	for _, a := range accs {
 		if !a.Write || a.Fresh {
 			continue
 		}
+		writes[a.Field]++
 		for k, h := range a.Held {
 			if h.Mode != "W" {
 				continue
 			}
 			for _, m := range mutexes {
 				if strings.HasSuffix(k, "."+m) {
-					if count[a.Field] == nil {
-						count[a.Field] = map[string]int{}
+					if sets[a.Field] == nil {
+						sets[a.Field] = map[string]int{}
 					}
-					count[a.Field][m]++
+					sets[a.Field][m]++
 				}
 			}
 		}
 	}
-	for f, c := range count {
-		// a field written under several mutexes is guarded by all of them for writing; the reading
-		// guard is the one held most often at writes (ties: alphabetical)
-		best, bn := "", -1
-		var names []string
-		for m := range c {
-			names = append(names, m)
-		}
-		sort.Strings(names)
-		for _, m := range names {
-			if c[m] > bn {
-				best, bn = m, c[m]
+	out := map[*types.Var][]string{}
+	for f, c := range sets {
+		var ms []string
+		// majority rule (Engler): a mutex held at more than half of the writes guards the field; the
+		// deviating writes are then reported by checkGuardedBy
+		for m, n := range c {
+			if 2*n > writes[f] {
+				ms = append(ms, m)
 			}
 		}
-		out[f] = best
+		sort.Strings(ms)
+		if len(ms) > 0 {
+			out[f] = ms
+		}
 	}
 	return out
 }
 
+func holds(st lockState, mutex string) (bool, string, ssa.Instruction) {
+	for k, h := range st {
+		if strings.HasSuffix(k, "."+mutex) {
+			return true, h.Mode, h.Acq
+		}
+	}
+	return false, "", nil
+}
+
 // checkGuardedBy emits one obligation per access to a guarded field.
-func checkGuardedBy(w *World, r *Report, ri *RuleInfo, t *types.Named) (map[*types.Var]string, []fieldAccess) {
+func checkGuardedBy(w *World, r *Report, ri *RuleInfo, t *types.Named) (map[*types.Var][]string, []fieldAccess) {
 	accs := fieldAccesses(w, t)
 	g := guardedFields(w, t, accs)
 	nth := map[string]int{}
 	for _, a := range accs {
-		m, ok := g[a.Field]
+		ms, ok := g[a.Field]
 		if !ok || a.Fresh {
 			continue
 		}
 		r.Analysed(w.FnName(a.Fn))
-		held, mode := false, ""
-		for k, h := range a.Held {
-			if strings.HasSuffix(k, "."+m) {
-				held, mode = true, h.Mode
-			}
-		}
 		kind := "read"
-		okAcc := held
+		okAcc := false
 		if a.Write {
 			kind = "write"
-			okAcc = held && mode == "W"
+			okAcc = true
+			for _, m := range ms {
+				if h, mode, _ := holds(a.Held, m); !h || mode != "W" {
+					okAcc = false
+				}
+			}
+		} else {
+			for _, m := range ms {
+				if h, _, _ := holds(a.Held, m); h {
+					okAcc = true
+				}
+			}
 		}
 		k := fmt.Sprintf("%s|%s|%s-of-%s", w.FnName(a.Fn), strings.TrimPrefix(t.String(), modPath+"/"), kind, a.Field.Name())
 		nth[k]++
-		r.Ob(ri, fmt.Sprintf("%s#%d", k, nth[k]), a.Instr.Pos(), okAcc, fmt.Sprintf("%s of %s.%s without holding %s (field is written under that mutex elsewhere: data race with a concurrent reload)", kind, t.Obj().Name(), a.Field.Name(), m))
+		r.Ob(ri, fmt.Sprintf("%s#%d", k, nth[k]), a.Instr.Pos(), okAcc, fmt.Sprintf("%s of %s.%s without holding %s (the field is written under that mutex elsewhere: data race with a concurrent change)", kind, t.Obj().Name(), a.Field.Name(), strings.Join(ms, " and ")))
 	}
 	return g, accs
 }
@@ -348,9 +363,9 @@ func c16Consistent(w *World, r *Report, signer *types.Named, cl *types.Interface
 			same := true
 			for i, a := range as {
 				var cur ssa.Instruction
-				for k, h := range a.Held {
-					if strings.HasSuffix(k, "."+g[a.Field]) {
-						cur = h.Acq
+				for _, m := range g[a.Field] {
+					if h, _, acq := holds(a.Held, m); h {
+						cur = acq
 					}
 				}
 				if cur == nil {
